@@ -25,6 +25,9 @@ type Schema struct {
 
 var _ jschema.Schema = &Schema{}
 
+// exampleAttempts how many generated strings are tried as the example.
+const exampleAttempts = 100
+
 type Option func(*Schema)
 
 // WithGeneratorSeed pass specific seed to regex example generator.
@@ -94,7 +97,20 @@ func (s *Schema) generateExample() ([]byte, error) {
 			return nil, err
 		}
 		g.SetSeed(s.generatorSeed)
-		return []byte(g.Generate(1)), nil
+
+		// The generator knows nothing about anchors inside alternatives and the
+		// like: what it makes is taken only if the pattern matches it.
+		re, err := regexp.Compile(s.pattern)
+		if err != nil {
+			return nil, err
+		}
+		for i := 0; i < exampleAttempts; i++ {
+			if ex := []byte(g.Generate(1)); re.Match(ex) {
+				return ex, nil
+			}
+		}
+		e := errors.NewDocumentError(s.file, errors.Format(errors.ErrGeneric, "example generator: no example matching the pattern found"))
+		return nil, e
 	})
 	if err != nil {
 		return nil, err
